@@ -1117,7 +1117,13 @@ def build_problem(a, n=None):
     if a.get("ineq", True):
         problem.add_constraint(g, value=float(a["c"][1]), constraint_type=MDOFunction.ConstraintType.INEQ, positive=bool(a.get("positive")))
     if a.get("eq"):
-        problem.add_constraint(lin, constraint_type=MDOFunction.ConstraintType.EQ)
+        # one consistent linear equality (SLSQP never returns on inconsistent equality systems: not a
+        # serialization matter)
+        from gemseo.core.mdo_functions.mdo_linear_function import MDOLinearFunction
+
+        row = np.array([[1.0, -0.5, 0.25][:n]])
+        eq = MDOLinearFunction(row, "eq", input_names=["x"], value_at_zero=np.array([-0.1]))
+        problem.add_constraint(eq, constraint_type=MDOFunction.ConstraintType.EQ)
     if a.get("observable", True):
         problem.add_observable(quad)
     if a.get("tol"):
